@@ -835,7 +835,7 @@ func c01FunctionTable(w *World, r *Report) {
 			if f == nil {
 				return nil, false
 			}
-			k, ok := checkerKinds[f.Name()]
+			k, ok := checkerKinds[nm(f)]
 			if !ok {
 				return nil, false
 			}
@@ -863,7 +863,7 @@ func c01FunctionTable(w *World, r *Report) {
 		retF := MethodValue(p, ce.Args[3])
 		ret := ""
 		if retF != nil {
-			ret = checkerKinds[retF.Name()]
+			ret = checkerKinds[nm(retF)]
 		}
 		sig, known := xpathSigs[key]
 		if !okA || impl == nil {
